@@ -52,7 +52,8 @@ THEOREMS = [
 ]
 THEOREMS += ['CC.C10_gen_Delta', 'CC.C10_gen_Q', 'CC.C10_gen_cols', 'CC.C10_gen_Lambda', 'CC.C10_gen_DQ', 'CC.C10_gen_matrices',
     'CC.C10_gen_model', 'CC.C10_gen_rel', 'CC.C10_gen_row_potential', 'CC.C10_gen_row_voltage', 'CC.C10_gen_row_current',
-    'CC.C10_gen_sources', 'CC.C10_gen_wrapper', 'CC.C10_gen_circuit_values', 'CC.C10_gen_container']
+    'CC.C10_gen_sources', 'CC.C10_gen_wrapper', 'CC.C10_gen_circuit_values', 'CC.C10_gen_container',
+    'CC.C10_gen_mappers_forwarded']
 LEAN_MODULE_EXTRA = list(globals().get('LEAN_MODULE_EXTRA', [])) + ['CC.Properties.C10Gen']
 
 OPEN_STATEMENTS = []
@@ -69,7 +70,8 @@ UNKNOWN_ID = '?no-such-element?'
 EXTRA_CANON = {}      # set by the value-variation stream: same ids, different values, same process
 
 def canon(desc, symptom, **kw):
-    return dict(op='state_space', symptom=symptom, **gs.facts(desc), **EXTRA_CANON, **kw)
+    return dict(op='state_space', symptom=symptom, **gs.facts(desc), **({'custom_index_maps': True} if desc.get('maps') else {}),
+                **EXTRA_CANON, **kw)
 
 def cond_of(pair):
     a, r = pair
@@ -183,8 +185,10 @@ def oracle(ctx, out, desc, im) -> bool:
     # every source is an input, once; input columns follow the published order
     sources = list(ssm.sources)
     if sorted(sources) != sorted(c['id'] for c in srcs):
-        out.spec_fail(canon(desc, 'source_missing'), f'published sources {sources} are not the circuit\'s sources '
-                      f'{sorted(c["id"] for c in srcs)}', inp, impl=dict(sources=sources), desc=desc); return False
+        extra = sorted(set(sources) - {c['id'] for c in srcs})
+        out.spec_fail(canon(desc, 'source_extra' if extra else 'source_missing'), f'published sources {sources} are not the circuit\'s sources '
+                      f'{sorted(c["id"] for c in srcs)}' + (f': {extra} is no source of the circuit but is published as an input' if extra else ''),
+                      inp, impl=dict(sources=sources), desc=desc); return False
     # state dimension
     if A.shape != (ns, ns) or B.shape != (ns, len(sources)) or C.shape[1:] != (ns,) or D.shape[1:] != (len(sources),):
         out.spec_fail(canon(desc, 'dims'), f'shapes A{A.shape} B{B.shape} C{C.shape} D{D.shape}, expected {ns} states, '
@@ -232,7 +236,7 @@ def oracle(ctx, out, desc, im) -> bool:
         rows.append((iel[i]['ic']['ok'], iel[i]['id_']['ok'])); keys.append(('i', i))
     # transfer function vs phasor solution, every source, every output, all time constants
     for w in gs.frequencies(A, ctx.quick):
-        if np.linalg.cond(1j * float(w) * np.eye(ns) - A) > 1e6:
+        if ns and np.linalg.cond(1j * float(w) * np.eye(ns) - A) > 1e6:
             out.skip('near_resonance'); continue
         H = transfer_rows(drv, A, B, rows, w)
         if H is None:
@@ -256,6 +260,8 @@ def oracle(ctx, out, desc, im) -> bool:
     # the circuit-level wrapper stacks exactly these rows: potentials, then voltages, then currents
     from CircuitCalculator.Circuit.state_space_model import state_space_model
     try:
+        if desc.get('maps'):
+            raise StopIteration              # the public wrapper takes no index maps: nothing to compare
         sm = state_space_model(im.circuit, potential_nodes=labels, voltage_ids=ids, current_ids=ids)
         expC = [ipot[n]['c'] for n in labels] + [iel[i]['vc']['ok'] for i in ids] + [iel[i]['ic']['ok'] for i in ids]
         expD = [ipot[n]['d'] for n in labels] + [iel[i]['vd']['ok'] for i in ids] + [iel[i]['id_']['ok'] for i in ids]
@@ -265,9 +271,34 @@ def oracle(ctx, out, desc, im) -> bool:
             out.spec_fail(canon(desc, 'stacked_rows'), 'state_space_model(circuit, potential_nodes, voltage_ids, current_ids) does not '
                           'stack the output rows of the requested potentials, voltages and currents in that order (C and D alike)',
                           inp, impl=dict(C=np.asarray(sm.C).tolist(), D=np.asarray(sm.D).tolist()), desc=desc); return False
+    except StopIteration:
+        pass
     except Exception as e:
         out.spec_fail(canon(desc, 'raises', exc=gs.gen_tag(e)), f'circuit-level state_space_model raises {type(e).__name__}: {e}', inp, desc=desc)
         return False
+    # the wrapper's request lists: default (nothing requested), empty, a subset, duplicates — rows in request order
+    if not desc.get('maps'):
+        rq = ctx.rng('requests', str(inp))
+        subs = [labels[k] for k in range(len(labels)) if rq.random() < 0.5]
+        subi = [i for i in ids if rq.random() < 0.5]
+        requests = [None, ([], [], []), (subs, subi, list(reversed(subi))), (labels[:1] * 2, ids[:1] * 2, ids[-1:] * 3)]
+        for req in requests:
+            try:
+                smr = state_space_model(im.circuit) if req is None else state_space_model(im.circuit, potential_nodes=req[0], voltage_ids=req[1], current_ids=req[2])
+            except Exception as e:
+                out.spec_fail(canon(desc, 'raises', exc=gs.gen_tag(e)), f'state_space_model with request lists {req} raises {type(e).__name__}: {e}', inp, desc=desc)
+                return False
+            rp_, rv_, ri_ = ([], [], []) if req is None else req
+            wantC = [ipot[n]['c'] for n in rp_] + [iel[i]['vc']['ok'] for i in rv_] + [iel[i]['ic']['ok'] for i in ri_]
+            wantD = [ipot[n]['d'] for n in rp_] + [iel[i]['vd']['ok'] for i in rv_] + [iel[i]['id_']['ok'] for i in ri_]
+            Cr, Dr = np.asarray(smr.C, dtype=float), np.asarray(smr.D, dtype=float)
+            okr = Cr.shape == (len(wantC), ns) and Dr.shape == (len(wantD), len(sources)) \
+                and (not wantC or (np.allclose(Cr, np.array(wantC).reshape(len(wantC), ns), rtol=0, atol=1e-12)
+                                   and np.allclose(Dr, np.array(wantD).reshape(len(wantD), len(sources)), rtol=0, atol=1e-12)))
+            if not okr:
+                out.spec_fail(canon(desc, 'stacked_rows'), f'state_space_model(circuit, …) with the request lists {req}: C / D are not the requested '
+                              f'rows in request order (shapes {Cr.shape}, {Dr.shape})', inp, desc=desc); return False
+        out.count('wrapper_request_lists')
     # DC gain vs the library's own DC solution for the circuit's source values
     if not any(c['kind'] in ('I0', 'Iac') for c in comps):
         try:
@@ -440,7 +471,7 @@ def wrapper_oracle(ctx, out, desc, repeated, replay_info) -> bool:
     ws = gs.frequencies(A, True)
     ws = [ws[0]] + ws[len(ws) // 2:len(ws) // 2 + 1] if len(ws) > 1 else ws
     for w in ws:
-        if np.linalg.cond(1j * float(w) * np.eye(ns) - A) > 1e6:
+        if ns and np.linalg.cond(1j * float(w) * np.eye(ns) - A) > 1e6:
             out.skip('near_resonance'); continue
         H = transfer_rows(drv, A, B, rows, w)
         if H is None:
@@ -475,6 +506,38 @@ def wrapper_sequence(ctx, out, desc, desc2):
     return (wrapper_oracle(ctx, out, desc, False, info) and wrapper_oracle(ctx, out, desc2, True, info)
             and wrapper_oracle(ctx, out, desc, True, info))
 
+def correspondence_maps(ctx, out, desc, im):
+    """non-default (order-consistent) index maps: the implementation's matrices are the model's (stated for the
+    default maps; `mapper_forwarding` in Gen/StateSpace.lean shows the maps are handed on) with the rows of C, D
+    permuted by the node / voltage-source maps and the columns of B, D by the published source order"""
+    drv = ctx.driver
+    inp = gs.pretty(desc)
+    m = drv.call('ss_model', net=gen_net.impl_to_json(im.network), cvals=gs.dict_items(im.cvals), lvals=gs.dict_items(im.lvals),
+                 pots=[], ids=[], spots=[], sids=[])
+    if 'A' not in m:
+        out.count('model:' + str(m.get('singular', m.get('err')))); return
+    ssm = im.ssm
+    nmap, vmap, src = ssm.node_index_mapping, ssm.voltage_source_index_mapping, list(ssm.sources)
+    if sorted(src) != sorted(m['sources']) or sorted(nmap.keys) != sorted(m['nodes']) or sorted(vmap.keys) != sorted(m['vs']):
+        out.disagree('ss_model.maps.keys', inp, dict(sources=src, nodes=nmap.keys, vs=vmap.keys), {k: m[k] for k in ('sources', 'nodes', 'vs')})
+        return
+    Mm = {k: np.array([[core.cfloat(x) for x in r] for r in m[k]], dtype=complex).reshape(len(m[k]), -1) for k in 'ABCD'}
+    N = len(m['nodes'])
+    rowperm = [0] * (N + len(m['vs']))
+    for j, n in enumerate(m['nodes']): rowperm[nmap[n]] = j
+    for j, v in enumerate(m['vs']): rowperm[N + vmap[v]] = N + j
+    colperm = [m['sources'].index(s_) for s_ in src]
+    ns, nu = len(m['A']), len(src)
+    exp = dict(A=Mm['A'].reshape(ns, ns), B=Mm['B'].reshape(ns, -1)[:, colperm] if nu else Mm['B'].reshape(ns, 0),
+               C=Mm['C'].reshape(len(rowperm), ns)[rowperm, :], D=(Mm['D'].reshape(len(rowperm), -1)[rowperm, :][:, colperm] if nu else Mm['D'].reshape(len(rowperm), 0)))
+    for k in 'ABCD':
+        I = np.asarray(getattr(ssm, k), dtype=complex)
+        sc = max(1.0, float(np.max(np.abs(exp[k]))) if exp[k].size else 1.0)
+        if I.shape != exp[k].shape or (I.size and np.max(np.abs(I - exp[k])) > 1e-9 * sc):
+            out.disagree('ss_model.maps.' + k, inp, I.tolist(), exp[k].tolist()); return
+    out.traces_validated += 1
+    out.count('custom_map_traces')
+
 def check_case(ctx, out, desc, origin='random'):
     drv = ctx.driver
     out.evaluations += 1
@@ -493,7 +556,10 @@ def check_case(ctx, out, desc, origin='random'):
                       gs.pretty(desc), impl=dict(exception=repr(e)), desc=desc)
         return
     if drv is not None:
-        correspondence(ctx, out, desc, im)
+        if desc.get('maps'):
+            correspondence_maps(ctx, out, desc, im)
+        else:
+            correspondence(ctx, out, desc, im)
     if oracle(ctx, out, desc, im):
         out.sample(gs.pretty(desc))
 
@@ -598,6 +664,31 @@ CORPUS = [
         dict(kind='R', id='R3', n1='5', n2='0', val=4.0), dict(kind='I', id='Is', n1='0', n2='5', val=1.0)]),
 ]
 
+# canonical inputs of the index-map defect repaired by 4559c7d (audit script c10_custom_mappers_min.py): reversed
+# current-source map (column 0 published as 'Ib' carried Ia's response), reversed voltage-source map, reversed node map
+MAP_CORPUS = [
+    dict(ground='0', ground_pos=6, maps=dict(cs='reversed'), comps=[
+        dict(kind='I', id='Ia', n1='0', n2='1', val=1.0), dict(kind='I', id='Ib', n1='0', n2='2', val=1.0),
+        dict(kind='R', id='R1', n1='1', n2='0', val=1.0), dict(kind='R', id='R2', n1='1', n2='2', val=1.0),
+        dict(kind='R', id='R3', n1='2', n2='0', val=2.0), dict(kind='C', id='C1', n1='2', n2='0', val=1.0)]),
+    dict(ground='0', ground_pos=6, maps=dict(vs='reversed'), comps=[
+        dict(kind='V', id='Va', n1='1', n2='0', val=1.0), dict(kind='V', id='Vb', n1='3', n2='0', val=1.0),
+        dict(kind='R', id='R1', n1='1', n2='2', val=1.0), dict(kind='R', id='R2', n1='3', n2='2', val=3.0),
+        dict(kind='C', id='C1', n1='2', n2='0', val=1.0), dict(kind='R', id='R3', n1='3', n2='0', val=1.0)]),
+    dict(ground='0', ground_pos=5, maps=dict(node='reversed'), comps=[
+        dict(kind='V', id='Vs', n1='1', n2='0', val=1.0), dict(kind='R', id='R1', n1='1', n2='2', val=1.0),
+        dict(kind='C', id='C1', n1='2', n2='0', val=1.0), dict(kind='R', id='R2', n1='2', n2='3', val=1.0),
+        dict(kind='C', id='C2', n1='3', n2='0', val=2.0)]),
+]
+
+# a resistor of 0 Ω (the constructor accepts R = 0) is a short circuit at w = 0, i.e. an ideal voltage source for the
+# builder: it is published as an INPUT ('sources' = ['R0', 'Vs']) and TransientSolution asks for its waveform
+ZERO_R_CORPUS = [
+    dict(ground='0', ground_pos=4, comps=[
+        dict(kind='V', id='Vs', n1='1', n2='0', val=1.0), dict(kind='R', id='R0', n1='1', n2='2', val=0.0),
+        dict(kind='R', id='R1', n1='2', n2='3', val=2.0), dict(kind='C', id='C1', n1='3', n2='0', val=0.5)]),
+]
+
 def run(ctx, out):
     out.rule = ('RLC + ideal V/I-source circuits (connected multigraphs, 1–5 reactive elements, dyadic values, adversarial node '
                 'labels, terminal orders and listing orders; 40 % with block-wise source names, 60 % with fully adversarial '
@@ -610,6 +701,10 @@ def run(ctx, out):
         wrapper_sequence(ctx, out, desc, gs.vary_values(vr, desc))
     for desc in SI_CORPUS:
         si_oracle(ctx, out, desc, 'si_corpus')
+    for desc in MAP_CORPUS:
+        check_case(ctx, out, desc, 'map_corpus')
+    for desc in ZERO_R_CORPUS:
+        check_case(ctx, out, desc, 'domain_corpus')
     container_cases(ctx, out)
     malformed_cases(ctx, out)
     rng = ctx.rng('random')
@@ -624,6 +719,17 @@ def run(ctx, out):
             if ok: break
             out.count('rejected_degenerate:' + why)
         check_case(ctx, out, desc)
+        # corners of the domain: no source, 3–4 sources, no reactive element, no resistor, up to nine nodes, V = 0
+        if rng.random() < (0.25 if ctx.quick else 1.0):
+            for _ in range(40):
+                dw = gs.wide_desc(rng)
+                if gs.nondegenerate(ctx.driver, dw)[0]: break
+            check_case(ctx, out, dw, 'corner'); out.count('corner:' + dw['corner'])
+        # index-map stream: the three public mapper keyword arguments of nodal_state_space_model with non-default,
+        # order-consistent maps — transfer per published source column, `sources` order, state identities
+        if rng.random() < (0.35 if ctx.quick else 1.0):
+            check_case(ctx, out, gs.with_maps(rng, desc), 'index_maps')
+            out.count('index_map_cases')
         # source-kind stream: the same circuit with ideal ac / periodic voltage sources (w = 0 and w ≠ 0) and ac
         # current sources (w = 0), nominal phases in all quadrants — every ideal source kind the builder accepts
         if rng.random() < (0.3 if ctx.quick else 1.0):
